@@ -19,7 +19,7 @@ const c16MaxHay = 160
 func init() {
 	register(&Prop{ID: "C16", N: 6000, Quick: 3000, Variants: cpuVariants,
 		Assume: []string{"Find(h,s) is compared with the one-line definition min{i>=s : some literal is a prefix of h[i:]}; complete prefilters with stdlib regexp on the alternation of the quoted literals", "haystacks sit flush against PROT_NONE pages (both ends alternately)"},
-		Rule:   "case = one literal set (1-70 literals, lengths 1-12, shared prefixes/nibbles, duplicates, one a prefix or suffix of another) with 8 haystacks (literal at every offset class relative to 16/32/64-byte strides, near misses before the real one); every prefilter the set can be built into (Builder: memchr/memmem/slim Teddy/Aho-Corasick; NewTeddy; NewFatTeddy; digit; WrapIncomplete; WrapLineAnchor; Tracker fresh and aged to inactivity; WrapWithTracking) is asked Find(h,s) for EVERY start s in [0,len(h)] and FindMatch/LiteralLen where complete; one evaluation = one compared call; distinct_nontrivial = distinct (set, haystack, implementation) triples in which some literal occurs in the haystack",
+		Rule:   "case = one literal set (1-120 literals, lengths 1-12, shared prefixes/nibbles, duplicates, one a prefix, suffix or infix of another) with 8 haystacks (literal at every offset class relative to 16/32/64-byte strides, near misses before the real one); every prefilter the set can be built into (Builder: memchr/memmem/slim Teddy/Aho-Corasick; NewTeddy; NewFatTeddy; digit; WrapIncomplete; WrapLineAnchor; Tracker fresh and aged to inactivity; WrapWithTracking) is asked Find(h,s) for EVERY start s in [0,len(h)] and FindMatch/LiteralLen where complete; one evaluation = one compared call; distinct_nontrivial = distinct (set, haystack, implementation) triples in which some literal occurs in the haystack",
 		Triage: func(f *Failure) string { return knownC16(f) },
 		Known:  knownC16,
 		Run:    runC16})
@@ -32,7 +32,7 @@ func knownC16(f *Failure) string {
 
 func c16Set(i uint64) ([][]byte, bool) {
 	r := gen.Rng("C16", i)
-	counts := []int{1, 1, 1, 2, 2, 3, 4, 5, 8, 9, 16, 20, 33, 40, 64, 70}
+	counts := []int{1, 1, 1, 2, 2, 3, 4, 5, 8, 9, 16, 20, 33, 40, 64, 70, 70, 90, 120}
 	n := counts[r.IntN(len(counts))]
 	alphas := []string{"ab", "abc", "abcdefgh", "aAqQ1!", "\x01\x11\x21\x31\x41", "\x10\x11\x12\x13\x14", "abcdefghijklmnopqrstuvwxyz", "xy\n", "ab\xff\x80"}
 	alpha := alphas[r.IntN(len(alphas))]
@@ -70,6 +70,11 @@ func c16Set(i uint64) ([][]byte, bool) {
 		case 2:
 			if len(lits) > 0 { // duplicate
 				b = append([]byte(nil), lits[r.IntN(len(lits))]...)
+			}
+		case 3:
+			if len(lits) > 0 { // an existing literal strictly inside a new one (infix)
+				o := lits[r.IntN(len(lits))]
+				b = append(append([]byte{alpha[r.IntN(len(alpha))]}, o...), alpha[r.IntN(len(alpha))])
 			}
 		}
 		if len(b) > 14 {
